@@ -20,6 +20,11 @@ PINNED = {  # crate -> version the summaries were written against
 }
 
 
+def payload(v, variant):
+    """same shape a `match` on the variant produces: field 0 of the downcast"""
+    return T('field', T('as', v, variant), '0')
+
+
 def deref(eng, st, v):
     if v[0] == 'ref':
         return eng.load(st, v[1])
@@ -125,11 +130,11 @@ def try_branch(eng, st, fr, args, fn, site):
     # which family? decide by the declared self type of the call
     targs = (fn or {}).get('targs') or []
     tys = fr.body.crate.types[targs[0]]['s'] if targs else ''
-    if tys.startswith('std::option::Option') or tys.startswith('core::option::Option'):
-        return [(('agg', CF, 'Continue', (T('payload', v, 'Some'),)), [(d, '==', 1)]),
+    if tys.startswith('std::option::Option') or tys.startswith('std::option::Option'):
+        return [(('agg', CF, 'Continue', (payload(v, 'Some'),)), [(d, '==', 1)]),
                 (('agg', CF, 'Break', (('agg', 'std::option::Option', 'None', ()),)), [(d, '==', 0)])]
-    return [(('agg', CF, 'Continue', (T('payload', v, 'Ok'),)), [(d, '==', 0)]),
-            (('agg', CF, 'Break', (('agg', 'std::result::Result', 'Err', (T('payload', v, 'Err'),)),)),
+    return [(('agg', CF, 'Continue', (payload(v, 'Ok'),)), [(d, '==', 0)]),
+            (('agg', CF, 'Break', (('agg', 'std::result::Result', 'Err', (payload(v, 'Err'),)),)),
              [(d, '==', 1)])]
 
 
@@ -178,30 +183,30 @@ SUMMARIES = {
     '<nix::sys::time::TimeSpec as nix::sys::time::TimeValLike>::microseconds': un_val('ts_microseconds'),
     'nix::sys::time::TimeSpec::tv_sec': un_ref('ts_tv_sec'),
     'nix::sys::time::TimeSpec::tv_nsec': un_ref('ts_tv_nsec'),
-    'core::num::<impl u16>::wrapping_add': wrapping('wadd'),
-    'core::num::<impl u16>::wrapping_sub': wrapping('wsub'),
-    'core::num::<impl u32>::wrapping_mul': wrapping('wmul'),
-    'core::num::<impl u32>::wrapping_add': wrapping('wadd'),
-    'core::num::<impl u32>::checked_mul': checked('checked_mul'),
-    'core::num::<impl u32>::checked_add': checked('checked_add'),
-    'core::num::<impl u32>::saturating_mul': checked('saturating_mul'),
-    'core::num::<impl u16>::checked_add': checked('checked_add'),
-    'core::num::<impl i64>::checked_add': checked('checked_add'),
+    'std::num::<impl u16>::wrapping_add': wrapping('wadd'),
+    'std::num::<impl u16>::wrapping_sub': wrapping('wsub'),
+    'std::num::<impl u32>::wrapping_mul': wrapping('wmul'),
+    'std::num::<impl u32>::wrapping_add': wrapping('wadd'),
+    'std::num::<impl u32>::checked_mul': checked('checked_mul'),
+    'std::num::<impl u32>::checked_add': checked('checked_add'),
+    'std::num::<impl u32>::saturating_mul': checked('saturating_mul'),
+    'std::num::<impl u16>::checked_add': checked('checked_add'),
+    'std::num::<impl i64>::checked_add': checked('checked_add'),
     'std::f64::<impl f64>::abs': un_val('abs'),
     'std::f64::<impl f64>::ceil': un_val('ceil'),
     'std::f64::<impl f64>::floor': un_val('floor'),
     'std::f64::<impl f64>::round': un_val('round'),
     'std::f64::<impl f64>::trunc': un_val('trunc'),
-    'core::f64::<impl f64>::abs': un_val('abs'),
-    'core::f64::<impl f64>::max': bin_val('fmax'),
-    'core::f64::<impl f64>::min': bin_val('fmin'),
-    'core::f64::<impl f64>::copysign': bin_val('copysign'),
-    'core::f64::<impl f64>::mul_add': lambda e, s, f, a, fn, site: T('Add', T('Mul', a[0], a[1]), a[2]),
+    'std::f64::<impl f64>::abs': un_val('abs'),
+    'std::f64::<impl f64>::max': bin_val('fmax'),
+    'std::f64::<impl f64>::min': bin_val('fmin'),
+    'std::f64::<impl f64>::copysign': bin_val('copysign'),
+    'std::f64::<impl f64>::mul_add': lambda e, s, f, a, fn, site: T('Add', T('Mul', a[0], a[1]), a[2]),
     'std::f64::<impl f64>::mul_add': lambda e, s, f, a, fn, site: T('Add', T('Mul', a[0], a[1]), a[2]),
     'std::mem::size_of': size_of,
-    'core::mem::size_of': size_of,
+    'std::mem::size_of': size_of,
     'std::boxed::Box::<T>::new': box_new,
-    'alloc::boxed::Box::<T>::new': box_new,
+    'std::boxed::Box::<T>::new': box_new,
     '<std::result::Result<T, E> as std::ops::Try>::branch': try_branch,
     '<std::option::Option<T> as std::ops::Try>::branch': try_branch,
     '<std::result::Result<T, F> as std::ops::FromResidual<std::result::Result<std::convert::Infallible, E>>>::from_residual': from_residual,
@@ -209,6 +214,7 @@ SUMMARIES = {
     '<T as std::convert::Into<U>>::into': conv,
     '<T as std::convert::From<T>>::from': identity,
     '<f64 as std::convert::From<chrony_candm::common::ChronyFloat>>::from': conv,
+    'chrony_candm::common::<impl std::convert::From<chrony_candm::common::ChronyFloat> for f64>::from': conv,
     '<f64 as std::convert::From<f32>>::from': conv,
     '<u64 as std::convert::From<u32>>::from': conv,
     'std::time::Duration::from_secs': un_val('dur_from_secs'),
